@@ -346,10 +346,18 @@ Proof.
   intro. apply verify_is_procfs_bal.
 Qed.
 
+Lemma openat2_retry_bal n root p fl rs o : bal (Rfd o) o (openat2_retry fz n root p fl rs).
+Proof.
+  induction n as [|m IH]; cbn [openat2_retry]; [constructor; hnf; reflexivity|].
+  eapply bal_bind; [apply w_openat2_bal|]. intros [fd|e] o1 Ho1; [constructor; exact Ho1|].
+  hnf in Ho1. destruct (N.eqb e EAGAIN); [|constructor; exact Ho1].
+  eapply bal_perm; [apply perm_closed_Rfd|exact IH|apply Permutation_sym, Ho1].
+Qed.
+
 Lemma openat2_resolve_bal root p fl rf o : bal (Rfd o) o (openat2_resolve fz cfg root p fl rf).
 Proof.
   unfold openat2_resolve, os. destruct (negb cfg); [constructor; hnf; reflexivity|].
-  apply bal_map_err_fd, w_openat2_bal.
+  destruct (N.eqb PROCFS_OPENAT2_RETRIES 0); [apply bal_map_err_fd, w_openat2_bal|apply openat2_retry_bal].
 Qed.
 
 (* the walk owns [cur] on entry and hands on exactly one descriptor (or none) *)
@@ -461,7 +469,8 @@ Proof.
   assert (Hcl : forall e, bal (@Rph ekind o) oo (close inner ;;; Ret (Err e))).
   { intro e. apply close_ret_bal with (o' := o); [apply perm_closed_Rph|exact Hoo|hnf; reflexivity]. }
   eapply bal_bind_same; [apply perm_closed_Rph|apply verify_is_procfs_bal|]. intros [u|e]; [|apply Hcl].
-  eapply bal_bind_same; [apply perm_closed_Rph|apply w_fstatat_bal|]. intros [meta|e]; [|constructor].
+  eapply bal_bind_same; [apply perm_closed_Rph|apply w_fstatat_bal|]. intros [meta|e].
+  2: { destruct TRY_FROM_FD_FSTAT_PANICS; [constructor|apply Hcl]. }
   destruct (negb _); [apply Hcl|].
   eapply bal_bind_same; [apply perm_closed_Rph|apply fetch_mnt_id_bal|]. intros [mnt|e]; [|apply Hcl].
   generalize SUBSET_PROBES. intro ps. induction ps as [|p rest IH]; [constructor; exact Hoo|].
